@@ -190,10 +190,10 @@ package internal
 //@   site#methods methodData: $1 == iface.Method(i) && $2 == ifaceMock.Config && iface == ifaceOf(g.registry, ifaceMock.Name)
 //@   ensures#nobytes err != nil ==> len(result) == 0
 //@   returns#formatted err == nil ==> called("format") == 1
-//@   loop 0: invariant g.registry == old(g.registry) && RegInv(g.registry) && g.registry.srcPkg == old(g.registry.srcPkg) && len(mockData) == $i && GenFrame(g)
+//@   loop 0: invariant g.registry == old(g.registry) && RegInv(g.registry) && g.registry.srcPkg == old(g.registry.srcPkg) && len(mockData) == $i && GenFrame(g) && called("getTemplate") == 0 && called("format") == 0 && called("text/template.(*Template).Execute") == 0
 //@   loop 0: invariant#cache g.remoteTemplateCache == old(g.remoteTemplateCache) && CacheInv(g.remoteTemplateCache) && g.pkgConfig == old(g.pkgConfig)
 //@   loop 0: invariant#td forall k int :: 0 <= k && k < $i ==> mockData[k].TemplateData == interfaces[k].Config.TemplateData && mockData[k].Name == interfaces[k].Name
-//@   loop 1: invariant 0 <= i && i <= len(methods) && len(methods) == iface.NumMethods() && g.registry == old(g.registry) && RegInv(g.registry) && GenFrame(g)
+//@   loop 1: invariant 0 <= i && i <= len(methods) && len(methods) == iface.NumMethods() && g.registry == old(g.registry) && RegInv(g.registry) && GenFrame(g) && called("getTemplate") == 0 && called("format") == 0 && called("text/template.(*Template).Execute") == 0
 //@   loop 1: invariant#names forall k int :: 0 <= k && k < i ==> methods[k].Name == iface.Method(k).Name() && methods[k].Scope != nil && fresh(methods[k].Scope) && methods[k].Scope.visibleNames != nil && fresh(methods[k].Scope.visibleNames) && VarsOK(methods[k].Scope)
-//@   loop 2: invariant g.registry == old(g.registry) && RegInv(g.registry) && GenFrame(g) && len(methods) == iface.NumMethods()
+//@   loop 2: invariant g.registry == old(g.registry) && RegInv(g.registry) && GenFrame(g) && len(methods) == iface.NumMethods() && called("getTemplate") == 0 && called("format") == 0 && called("text/template.(*Template).Execute") == 0
 //@   loop 2: invariant#names forall k int :: 0 <= k && k < len(methods) ==> methods[k].Name == iface.Method(k).Name() && methods[k].Scope != nil && fresh(methods[k].Scope) && methods[k].Scope.visibleNames != nil && fresh(methods[k].Scope.visibleNames) && VarsOK(methods[k].Scope)
